@@ -230,6 +230,12 @@ class FrameMonitor(NullMonitor):
                     self.func_entry[pc] = n
                     cur = n
             self.func_of_pc[pc] = cur
+        # a loop / try label that shares its address with a function entry labels code the compiler dropped as unreachable
+        # (e.g. what follows a try whose body and handler both leave): arriving there is a call of that function, not the
+        # end of the statement.  Reachable ends are always followed by at least the enclosing function's return sequence.
+        for pc in list(self.kind):
+            if pc in self.func_entry:
+                self.kind[pc] = [k for k in self.kind[pc] if k[0] == 'end_call']
         self.stats = {'calls_checked': 0, 'loop_edges_checked': 0, 'try_checked': 0, 'nonlocal_releases': 0}
         self.release_stmt = None
         self.ap_lowered_in = set()
